@@ -294,6 +294,21 @@ struct Core {
         Sut s;
         new (mem) F(*static_cast<const F *>(src));
     }
+    // the same from a NON-CONST lvalue, as `F g(f);` is usually written: a perfect-forwarding
+    // constructor template can hijack exactly this form
+    static void copy_construct_nc(void *mem, void *src)
+    {
+        Sut s;
+        F &from = *static_cast<F *>(src);
+        new (mem) F(from);
+    }
+    static void copy_assign_nc(void *dst, void *src)
+    {
+        Sut s;
+        F &d = *static_cast<F *>(dst);
+        F &from = *static_cast<F *>(src);
+        d = from;
+    }
     static void move_construct(void *mem, void *src)
     {
         Sut s;
@@ -390,6 +405,8 @@ struct Core {
             o.default_construct = &default_construct;
         o.destroy = &destroy;
         o.copy_construct = &copy_construct;
+        o.copy_construct_nc = &copy_construct_nc;
+        o.copy_assign_nc = &copy_assign_nc;
         o.move_construct = &move_construct;
         o.copy_assign = &copy_assign;
         o.move_assign = &move_assign;
@@ -461,11 +478,19 @@ struct Conv {
         Sut s;
         new (mem) FD(std::move(*static_cast<FS *>(src)));
     }
+    // copying conversion from a non-const lvalue (`field<B2> g(f);`): still a COPY
+    static void copy_nc(void *mem, void *src)
+    {
+        Sut s;
+        FS &from = *static_cast<FS *>(src);
+        new (mem) FD(from);
+    }
     static void reg()
     {
         sim::SlotOps &o = sim::ops_of(TrD::index);
         o.conv[TrS::index].copy = &copy;
         o.conv[TrS::index].move = &move;
+        o.conv[TrS::index].copy_nc = &copy_nc;
     }
 };
 
